@@ -275,6 +275,14 @@ func CompareFunctions(funcName string, oldResult, newResult diff.FingerprintResu
 	}
 
 	d.FingerprintMatch = false
+
+	// Functions beyond the size guard are not canonicalised and must not be handed to the
+	// structural matcher either (that is what the guard protects): different bodies are modified.
+	if diff.IsOversized(oldResult.Fingerprint) || diff.IsOversized(newResult.Fingerprint) {
+		d.Status = models.StatusModified
+		return d
+	}
+
 	oldFn := oldResult.GetSSAFunction()
 	newFn := newResult.GetSSAFunction()
 
